@@ -15,6 +15,7 @@ import (
 type Fact struct {
 	blk, idx int // position (rpo position of block, instruction index); blk == -1: global definition
 	text     string
+	root     bool // ownership (root) axiom: only included in queries that need frame reasoning
 }
 
 type Obl struct {
@@ -61,6 +62,8 @@ type LoopInfo struct {
 	blocks  map[int]bool
 	ordinal int
 	mods    map[string]bool
+	freshOnly map[string]bool
+	localSlices []*ssa.Phi
 	modAll  bool
 	backs   []int // back edge sources
 }
@@ -109,6 +112,10 @@ type VC struct {
 	unsupp     []string
 	ghostAppend map[*ssa.Phi]bool
 	replay      []ReplayTerm
+	useRoot     bool
+	writeRoot   ssa.Value // allocation the current store goes to (nil: unknown / pre-existing memory)
+	nonFresh    map[int]map[string]bool   // block -> comps written at possibly pre-existing references
+	freshRoots  map[int]map[string][]int // block -> comp -> blocks of the allocations written to
 }
 
 func (vc *VC) fresh(prefix string) string {
@@ -130,7 +137,7 @@ func (vc *VC) declConst(name, sort string) {
 
 func (vc *VC) define(name, sort, term string) {
 	vc.declConst(name, sort)
-	vc.facts = append(vc.facts, Fact{-1, 0, fmt.Sprintf("(= %s %s)", name, term)})
+	vc.facts = append(vc.facts, Fact{blk: -1, text: fmt.Sprintf("(= %s %s)", name, term)})
 }
 
 // assume adds a guarded assumption at the current program point.
@@ -140,15 +147,15 @@ func (vc *VC) assume(text string) {
 	}
 	g := vc.reach[vc.curBlk]
 	if g == "" || g == "true" {
-		vc.facts = append(vc.facts, Fact{vc.curBlk, vc.curIdx, text})
+		vc.facts = append(vc.facts, Fact{blk: vc.curBlk, idx: vc.curIdx, text: text})
 	} else {
-		vc.facts = append(vc.facts, Fact{vc.curBlk, vc.curIdx, fmt.Sprintf("(=> %s %s)", g, text)})
+		vc.facts = append(vc.facts, Fact{blk: vc.curBlk, idx: vc.curIdx, text: fmt.Sprintf("(=> %s %s)", g, text)})
 	}
 }
 
 // global adds a fact that is true in every state (axiom instance / definition).
 func (vc *VC) global(text string) {
-	vc.facts = append(vc.facts, Fact{-1, 0, text})
+	vc.facts = append(vc.facts, Fact{blk: -1, text: text})
 }
 
 func (vc *VC) oblige(name, kind, cond, detail string, pos token.Pos) {
@@ -351,6 +358,45 @@ func (vc *VC) noteWrite(key string) {
 		vc.written[vc.curBlk] = map[string]bool{}
 	}
 	vc.written[vc.curBlk][key] = true
+	if key == "top" || strings.HasPrefix(key, "ghost|") {
+		return
+	}
+	if vc.writeRoot == nil {
+		if vc.nonFresh[vc.curBlk] == nil {
+			vc.nonFresh[vc.curBlk] = map[string]bool{}
+		}
+		vc.nonFresh[vc.curBlk][key] = true
+		return
+	}
+	if ins, ok := vc.writeRoot.(ssa.Instruction); ok && ins.Block() != nil {
+		if vc.freshRoots[vc.curBlk] == nil {
+			vc.freshRoots[vc.curBlk] = map[string][]int{}
+		}
+		vc.freshRoots[vc.curBlk][key] = append(vc.freshRoots[vc.curBlk][key], ins.Block().Index)
+	}
+}
+
+// allocRoot follows an address back to the allocation it points into (nil if unknown).
+func allocRoot(v ssa.Value) ssa.Value {
+	for i := 0; i < 10; i++ {
+		switch x := v.(type) {
+		case *ssa.Alloc:
+			return x
+		case *ssa.MakeSlice:
+			return x
+		case *ssa.MakeMap:
+			return x
+		case *ssa.FieldAddr:
+			v = x.X
+		case *ssa.IndexAddr:
+			v = x.X
+		case *ssa.Slice:
+			v = x.X
+		default:
+			return nil
+		}
+	}
+	return nil
 }
 
 func (vc *VC) havocAll() {
@@ -377,18 +423,22 @@ func (vc *VC) newRef() string {
 // subRef: address of a by-value struct field nested in the struct at address base.
 func (vc *VC) subRef(comp, base string) string {
 	fn := "sub_" + fmt.Sprint(vc.comp(comp, "").id) + "_" + mangle(comp)
-	vc.declare(fmt.Sprintf("(declare-fun %s (Int) Int)", fn), fn)
-	t := fmt.Sprintf("(%s %s)", fn, base)
-	vc.global(fmt.Sprintf("(< %s 0)", t))
-	return t
+	if !vc.dset[fn] {
+		vc.declare(fmt.Sprintf("(declare-fun %s (Int) Int)", fn), fn)
+		vc.global(fmt.Sprintf("(forall ((x Int)) (! (< (%s x) 0) :pattern ((%s x))))", fn, fn))
+		vc.facts = append(vc.facts, Fact{-1, 0, fmt.Sprintf("(forall ((x Int)) (! (= (root (%s x)) (root x)) :pattern ((%s x))))", fn, fn), true})
+	}
+	return fmt.Sprintf("(%s %s)", fn, base)
 }
 
 func (vc *VC) elemSubRef(comp, arr, idx string) string {
 	fn := "esub_" + fmt.Sprint(vc.comp(comp, "").id) + "_" + mangle(comp)
-	vc.declare(fmt.Sprintf("(declare-fun %s (Int Int) Int)", fn), fn)
-	t := fmt.Sprintf("(%s %s %s)", fn, arr, idx)
-	vc.global(fmt.Sprintf("(< %s 0)", t))
-	return t
+	if !vc.dset[fn] {
+		vc.declare(fmt.Sprintf("(declare-fun %s (Int Int) Int)", fn), fn)
+		vc.global(fmt.Sprintf("(forall ((x Int) (y Int)) (! (< (%s x y) 0) :pattern ((%s x y))))", fn, fn))
+		vc.facts = append(vc.facts, Fact{-1, 0, fmt.Sprintf("(forall ((x Int) (y Int)) (! (= (root (%s x y)) (root x)) :pattern ((%s x y))))", fn, fn), true})
+	}
+	return fmt.Sprintf("(%s %s %s)", fn, arr, idx)
 }
 
 func isStruct(t types.Type) bool {
